@@ -41,6 +41,7 @@ class Contract:
         self.variant = None
         self.key = q
         self.ldict_params = {}
+        self.tags = {}
 
     def params(self, *names):
         """parameter names of a dependency that has no source (assumed contracts on stdlib leaves)"""
@@ -83,6 +84,12 @@ class Contract:
 
     def site_assert(self, callee, expr, name=None):
         self.site_asserts.append((callee, name or f"site{len(self.site_asserts)+1}", expr)); return self
+
+    def tag(self, prop, *names):
+        """these clauses belong to `prop` only (untagged clauses are checked under every property of the contract)"""
+        for n in names:
+            self.tags.setdefault(n, set()).add(prop)
+        return self
 
     def assumed(self, note=None):
         self.mode = "assumed"
